@@ -236,7 +236,7 @@ class Scripted:
         self.horizon = MAX_REQUESTS
 
     def __call__(self, data, idx=None):
-        req = drivers.open_request(self.cfg, data)
+        req = drivers.open_request(self.cfg, data, strict=False, check_mac=False)
         step = len(self.requests)
         self.requests.append(req.oids[0])
         if step >= getattr(self, "horizon", MAX_REQUESTS):
@@ -286,9 +286,13 @@ def run_block(case, res):
         w = drivers.SyncWorld(cfg, sc, timeout=4.0, max_repetitions=max_rep or 3)
         try:
             for devs in strategies:
-                sc.arm(method, max_rep, devs)
-                it = w.session.getnext(base) if method == "getnext" else w.session.getbulk(base, max_rep)
-                got, out = collect_sync(it)
+                for attempt in range(2):
+                    sc.arm(method, max_rep, devs)
+                    it = w.session.getnext(base) if method == "getnext" else w.session.getbulk(base, max_rep)
+                    got, out = collect_sync(it)
+                    if not spurious(sc, out):
+                        break
+                    res.count("timeouts_retried")
                 evaluate(res, case, cfg, devs, sc, got, out)
             if w.errors:
                 res["machinery"].append("agent errors %s" % w.errors[:2])
@@ -298,19 +302,23 @@ def run_block(case, res):
 
         async def client(s):
             for devs in strategies:
-                sc.arm(method, max_rep, devs)
-                it = s.getnext(base) if method == "getnext" else s.getbulk(base, max_rep)
-                got = []
-                try:
-                    async for x in it:
-                        got.append(x)
-                        if len(got) > 60:
-                            raise TimeoutError("too many items")
-                    out = drivers.Outcome("ok", None)
-                except BaseException as e:  # noqa: BLE001
-                    if isinstance(e, (KeyboardInterrupt, SystemExit, MemoryError)):
-                        raise
-                    out = drivers.Outcome("exc", exc=e)
+                for attempt in range(2):
+                    sc.arm(method, max_rep, devs)
+                    it = s.getnext(base) if method == "getnext" else s.getbulk(base, max_rep)
+                    got = []
+                    try:
+                        async for x in it:
+                            got.append(x)
+                            if len(got) > 60:
+                                raise TimeoutError("too many items")
+                        out = drivers.Outcome("ok", None)
+                    except BaseException as e:  # noqa: BLE001
+                        if isinstance(e, (KeyboardInterrupt, SystemExit, MemoryError)):
+                            raise
+                        out = drivers.Outcome("exc", exc=e)
+                    if not spurious(sc, out):
+                        break
+                    res.count("timeouts_retried")
                 evaluate(res, case, cfg, devs, sc, got, out)
 
         o, reqs, errs = drivers.run_async(cfg, sc, client, timeout=4.0, max_repetitions=max_rep or 3)
@@ -318,6 +326,11 @@ def run_block(case, res):
             res["machinery"].append("agent errors %s" % errs[:2])
         if o.kind != "ok":
             res["machinery"].append("async driver failed %r" % (o.brief(),))
+
+
+def spurious(sc, out):
+    """A time-out although the scripted agent answered every request it saw: repeated once before it is judged."""
+    return out.kind == "exc" and isinstance(out.exc, TimeoutError) and len(sc.requests) <= MAX_REQUESTS and "too many items" not in str(out.exc)
 
 
 def evaluate(res, case, cfg, devs, sc, got, out):
